@@ -302,13 +302,13 @@ extern "C" void h_file_repeat(int ver, int feat, int raw) {
 }
 
 // ---- C16: whole file with a symbolic truncation point
-extern "C" void h_file_trunc(int ver, int feat, int thenSave) {
+extern "C" void h_file_trunc(int ver, int feat, int thenSave, int seg, int nseg) {
 	NifFile built;
 	fm_build(built, ver, feat);
 	FmRange s0 = fm_save(built, true);
 	sym_reach("loaded");
 	NifFile nif;
-	int rc = fm_load(nif, s0, true);
+	int rc = fm_load(nif, s0, true, seg, nseg);
 	sym_note("rc", rc);
 	auto shapes = nif.GetShapes();
 	for (auto s : shapes) {
